@@ -2568,7 +2568,9 @@ class Engine:
     def loop_break(self, spec, ordinal, fr, k_after):
         """the iteration ended in `break`: the per-iteration postcondition is still owed (k counts this iteration)"""
         if spec.must_exhaust:
-            self.check('loop.visits_every_element/loop%d' % ordinal, False, kind='body.post')
+            # recorded without assuming it (the path goes on: the clauses after the loop are still examined on it)
+            self.obligations.append(Obligation('loop.visits_every_element/loop%d' % ordinal, list(self.pc), z3.BoolVal(False),
+                                               'body.post', None))
         if not spec.body_post or not spec.body_post_on_break:
             return
         saved = fr.env.get(spec.k)
